@@ -39,7 +39,7 @@ type logBuf struct {
 }
 
 func (l *logBuf) Write(p []byte) (int, error) { l.mu.Lock(); defer l.mu.Unlock(); return l.b.Write(p) }
-func (l *logBuf) String() string               { l.mu.Lock(); defer l.mu.Unlock(); return l.b.String() }
+func (l *logBuf) String() string              { l.mu.Lock(); defer l.mu.Unlock(); return l.b.String() }
 
 // addrFactory fails (or succeeds) like stubFactory but puts addresses into its errors.
 type addrFactory struct {
@@ -48,9 +48,9 @@ type addrFactory struct {
 	remote *Conn
 }
 
-func (f *addrFactory) Transport() base.Transport                 { return stubTransport{} }
-func (f *addrFactory) Args() *pt.Args                            { return nil }
-func (f *addrFactory) ParseArgs(*pt.Args) (interface{}, error)   { return nil, nil }
+func (f *addrFactory) Transport() base.Transport               { return stubTransport{} }
+func (f *addrFactory) Args() *pt.Args                          { return nil }
+func (f *addrFactory) ParseArgs(*pt.Args) (interface{}, error) { return nil, nil }
 func (f *addrFactory) WrapConn(c net.Conn) (net.Conn, error) {
 	if f.kind == "server-handshake-fails" {
 		return nil, f.errFn()
